@@ -21,7 +21,7 @@ Init == phase = "pick" /\ op \in Ops \cup {"sqr", "cubic", "pow"} /\ ca \in Clas
 Pick == /\ phase = "pick"
         /\ phase' = "done"
         /\ cb' \in (IF op \notin Ops THEN {ca} ELSE IF ca \in BigClasses THEN BigClasses ELSE Classes)
-        /\ k' \in 1..K
+        /\ k' \in 1..(IF op = "pow" /\ ca \in 1..3 THEN 4 * NPat ELSE K)     \* small bases: every pattern x 4 exponents
         /\ UNCHANGED <<op, ca>>
 Next == Pick
 Spec == Init /\ [][Next]_vars
@@ -29,7 +29,8 @@ Spec == Init /\ [][Next]_vars
 Salt == ca * 7 + cb * 3 + k * 11 + Seed
 Case ==
   LET tp == TypePairs[1 + ((Salt + ca) % 5)]
-      pa == Patterns[1 + (Salt % NPat)]
+      powgrid == op = "pow" /\ ca \in 1..3
+      pa == IF powgrid THEN Patterns[1 + ((k - 1) % NPat)] ELSE Patterns[1 + (Salt % NPat)]
       pb == Patterns[1 + ((Salt \div 2 + cb) % NPat)]
       sa == IF tp[1] = "U" THEN 0 ELSE (Salt \div 3) % 2
       sb == IF tp[2] = "U" THEN 0 ELSE (Salt \div 5) % 2
@@ -38,7 +39,9 @@ Case ==
       A == I(sa, Mag(pa, ca, Salt))
       Bv == IF same THEN I(sb, A.m) ELSE I(sb, Mag(pb, cb, Salt + 1))
       \* keep a^n below about 4000 bits
-      n == IF op # "pow" THEN 0 ELSE IF ca = 0 THEN Salt % 4 ELSE (Salt % (1 + (64 \div ca)))
+      n == IF op # "pow" THEN 0
+           ELSE IF powgrid THEN <<3, 5, 7, 12>>[1 + ((k - 1) \div NPat)]
+           ELSE IF ca = 0 THEN Salt % 4 ELSE (Salt % (1 + (64 \div ca)))
   IN [op |-> op, lt |-> tp[1], rt |-> IF op \in Ops THEN tp[2] ELSE tp[1], a |-> A, b |-> Bv, n |-> n]
 
 Emit == phase = "done" => PrintT(<<"GEN", ToJson(Case)>>)
